@@ -573,6 +573,78 @@ def from_info_stage(ctx: Ctx) -> None:
             shutil.rmtree(d, ignore_errors=True)
 
 
+def housekeeping_in_a_shared_thread_stage(ctx: Ctx) -> None:
+    """two applications with look-alike ids in ONE process, served by one thread in turn (a worker pool shared by the tenants of a
+    process, a test runner, a notebook): the thread runs an ordinary invocation of B, then A's own housekeeping task
+    (`recover_pending_invocations`, launched and run as the invocation it is).  A's housekeeping recovers A's stuck work and
+    leaves B's alone - whichever application the thread served last."""
+    import threading as _th
+
+    from pynenc.invocation.status import InvocationStatus as S
+
+    from harness import tasks as T
+    from harness.apps import flush, inject_status, make_app, rctx
+
+    n = 0
+    for kind in ("mem", "sqlite"):
+        for ida, idb in (("tenant.a", "tenant_a"), ("x", "x ")):
+            out: dict = {}
+
+            def scenario() -> None:
+                db = os.path.join(ctx.tmp, f"c17hk{kind}{abs(hash((ida, idb))) % 10**6}.db")
+                a = make_app(kind, ctx.tmp, app_id=ida, db=db if kind == "sqlite" else None, max_pending_seconds=1.0)
+                b = make_app(kind, ctx.tmp, app_id=idb, db=db if kind == "sqlite" else None, max_pending_seconds=1.0)
+                ta, tb = a.task(T.add), b.task(T.add)
+                a.register_core_tasks()
+                b.register_core_tasks()
+                rec_a = next(t for tid, t in a.tasks.items() if tid.func_name == "recover_pending_invocations")
+                ca, cb = rctx("worker-a"), rctx("worker-b")
+                stuck_a, stuck_b = ta(1, 1).invocation_id, tb(1, 1).invocation_id
+                for app_, i, c in ((a, stuck_a, ca), (b, stuck_b, cb)):
+                    got = [g.invocation_id for g in app_.orchestrator.get_invocations_to_run(1, c)]
+                    assert got == [i], got
+                    inject_status(app_, i, S.PENDING, c.runner_id, 0)           # claimed long ago
+                # the thread serves B ...
+                tb(10, 2)
+                for inv in app_invs(b, cb):
+                    inv.run(cb)
+                # ... and then A's housekeeping
+                rec_a()
+                for inv in app_invs(a, ca):
+                    inv.run(ca)
+                flush(a)
+                flush(b)
+                out["a"] = a.orchestrator.get_invocation_status(stuck_a).value
+                out["b"] = b.orchestrator.get_invocation_status(stuck_b).value
+                out["hist_b"] = [h.status_record.status.value for h in b.state_backend.get_history(stuck_b)]
+
+            def app_invs(app_, c):  # type: ignore[no-untyped-def]
+                return list(app_.orchestrator.get_invocations_to_run(3, c))
+
+            err = []
+
+            def guarded() -> None:
+                try:
+                    scenario()
+                except BaseException as e:  # noqa: BLE001
+                    err.append(f"{type(e).__name__}: {str(e)[:160]}")
+
+            th = _th.Thread(target=guarded)          # a fresh thread: nothing is "current" in it yet
+            th.start()
+            th.join(60)
+            n += 1
+            ctx.count()
+            ctx.distinct((kind, "housekeeping-in-a-shared-thread", ida, idb))
+            rep = {"kind": "housekeeping-in-a-shared-thread", "backend": kind, "ids": [ida, idb], "result": out, "error": err}
+            if err or th.is_alive():
+                ctx.report(f"shared-thread-scenario-failed[{kind}]", f"[{kind}] applications {ida!r} and {idb!r} served by one thread: {err or 'did not finish'}", rep)
+            elif out.get("b") != "pending" or "pending_recovery" in out.get("hist_b", []) or out.get("a") == "pending":
+                ctx.report(f"housekeeping-of-one-app-acts-on-another[{kind}]",
+                           f"[{kind}] applications {ida!r} and {idb!r} in one process; a thread runs an invocation of {idb!r} and then the housekeeping task of {ida!r}: "
+                           f"{ida!r}'s stuck invocation is {out.get('a')} (should have been recovered), {idb!r}'s stuck invocation is {out.get('b')} with history {out.get('hist_b')} (should be untouched)", rep)
+    ctx.notes["housekeeping_in_a_shared_thread"] = n
+
+
 def config_file_ids_stage(ctx: Ctx) -> None:
     """a worker process holds an application it received by pickle (the process registry then answers constructor calls); applications
     whose id comes from their CONFIGURATION FILE are built next to it: each is its own object with its own id, queue and records"""
@@ -643,6 +715,7 @@ def run(ctx: Ctx) -> None:
     scenario_stage(ctx)
     from_info_stage(ctx)
     config_file_ids_stage(ctx)
+    housekeeping_in_a_shared_thread_stage(ctx)
     ctx.notes["t_scenarios_s"] = round(time.time() - t0, 1)
     ctx.assumptions += [
         "SHA-256 is not modelled: the 8 hex digits are a parameter of the model; 'no collision of the 32-bit prefix' is the explicit hypothesis ha ≠ hb of table_names_distinct / apps_disjoint / exact_purge_isolated",
